@@ -12,8 +12,13 @@ package server
 //@ iface (github.com/buchgr/bazel-remote/v2/cache/disk.Cache).GetZstd(c, ctx, hash, size, offset)
 //@   pure
 //@   ensures typederr: istype(result2, "*cache.Error") ==> as(result2, "*cache.Error") != nil
+// probeN counts existence probes by the current invocation, probeFound is the last answer.
+//@ ghost probeN Int
+//@ ghost probeFound Bool
 //@ iface (github.com/buchgr/bazel-remote/v2/cache/disk.Cache).Contains(c, ctx, kind, hash, size)
 //@   pure
+//@   gmodifies probeN, probeFound
+//@   gensures probeN == old(probeN) + 1 && (probeFound <==> result0)
 //@ iface (github.com/buchgr/bazel-remote/v2/cache/disk.Cache).GetValidatedActionResult(c, ctx, hash)
 //@   pure
 //@ extern (*net/http.Request).Context(r)
